@@ -90,9 +90,9 @@ def run_case(ctx, h, nedits, lines=None, reals=None):
     lines.append('reset'); reals.append((h, 'ok', 'reset'))
     names = []
 
-    def emit(line):
+    def emit(line, compare=True):
         lines.append(line)
-        reals.append((h, real_row(classes, instances, names), line))
+        reals.append((h, real_row(classes, instances, names) if compare else None, line))
     rng = common.sub_rng(ctx.seed, 'C12', h)
     n = rng.randint(2, 4)
     classes = [E.EClass(f'K{i}') for i in range(n)]
@@ -119,9 +119,20 @@ def run_case(ctx, h, nedits, lines=None, reals=None):
         try:
             ci = classes.index(c)
             if k < .18:
-                f = new_feature(); c.eStructuralFeatures.append(f); log.append(f'{c.name}.add {f.name}')
-                removed.add(f.name)      # every name ever declared: wherever it is not (or no longer) a feature, it must be gone
-                names.append(f.name); emit(f'addfeat {ci} {counter[0]}')
+                how = rng.choice(['append', 'append', 'insert', 'extend', 'iadd'])
+                fs_ = [new_feature() for _ in range(2 if how in ('extend', 'iadd') else 1)]
+                if how == 'append':
+                    c.eStructuralFeatures.append(fs_[0])
+                elif how == 'insert':
+                    c.eStructuralFeatures.insert(0, fs_[0])
+                elif how == 'extend':
+                    c.eStructuralFeatures.extend(fs_)
+                else:
+                    c.eStructuralFeatures += fs_
+                log.append(f'{c.name}.add({how}) {[f.name for f in fs_]}')
+                for n_, f in enumerate(fs_):
+                    removed.add(f.name)  # every name ever declared: wherever it is not (or no longer) a feature, it must be gone
+                    names.append(f.name); emit(f'addfeat {ci} {f.name[1:]}', compare=(n_ == len(fs_) - 1))
             elif k < .22:
                 counter[0] += 1
                 op = E.EOperation(f'op{counter[0]}'); c.eOperations.append(op); log.append(f'{c.name}.addop {op.name}')
@@ -130,24 +141,55 @@ def run_case(ctx, h, nedits, lines=None, reals=None):
                 op = rng.choice(list(c.eOperations)); c.eOperations.remove(op); log.append(f'{c.name}.removeop {op.name}')
                 emit(f'removeop {ci} {op.name[2:]}')
             elif k < .38 and len(c.eStructuralFeatures):
-                f = rng.choice(list(c.eStructuralFeatures)); c.eStructuralFeatures.remove(f)
-                removed.add(f.name); log.append(f'{c.name}.remove {f.name}')
-                emit(f'removefeat {ci} {f.name[1:]}')
+                how = rng.choice(['remove', 'remove', 'pop', 'del', 'clear'])
+                cur = list(c.eStructuralFeatures)
+                f = rng.choice(cur)
+                gone = [f]
+                if how == 'remove':
+                    c.eStructuralFeatures.remove(f)
+                elif how == 'pop':
+                    c.eStructuralFeatures.pop(cur.index(f))
+                elif how == 'del':
+                    del c.eStructuralFeatures[cur.index(f)]
+                else:
+                    gone = cur
+                    c.eStructuralFeatures.clear()
+                log.append(f'{c.name}.remove({how}) {[x.name for x in gone]}')
+                for n_, x in enumerate(gone):
+                    removed.add(x.name)
+                    emit(f'removefeat {ci} {x.name[1:]}', compare=(n_ == len(gone) - 1))
             elif k < .58:
                 cands = [x for x in classes if x is not c and x not in c.eSuperTypes and c not in supers_of(x) and x is not c]
                 if not cands:
                     continue
                 s_ = rng.choice(cands)
                 front = rng.random() < .5
+                how = 'insert' if front else rng.choice(['append', 'extend', 'iadd'])
                 if front:
                     c.eSuperTypes.insert(0, s_)
-                else:
+                elif how == 'append':
                     c.eSuperTypes.append(s_)
-                log.append(f'{c.name}.add-supertype {s_.name}')
+                elif how == 'extend':
+                    c.eSuperTypes.extend([s_])
+                else:
+                    c.eSuperTypes += [s_]
+                log.append(f'{c.name}.add-supertype({how}) {s_.name}')
                 emit(f'addsuper {ci} {classes.index(s_)} {int(front)}')
             elif k < .68 and len(c.eSuperTypes):
-                s_ = rng.choice(list(c.eSuperTypes)); c.eSuperTypes.remove(s_); log.append(f'{c.name}.remove-supertype {s_.name}')
-                emit(f'removesuper {ci} {classes.index(s_)}')
+                how = rng.choice(['remove', 'remove', 'pop', 'clear'])
+                cur = list(c.eSuperTypes)
+                s_ = rng.choice(cur)
+                gone = [s_]
+                if how == 'remove':
+                    c.eSuperTypes.remove(s_)
+                elif how == 'pop':
+                    c.eSuperTypes.pop(cur.index(s_))
+                else:
+                    gone = cur
+                    c.eSuperTypes.clear()
+                log.append(f'{c.name}.remove-supertype({how}) {[x.name for x in gone]}')
+                for n_, x in enumerate(gone):
+                    emit(f'removesuper {ci} {classes.index(x)}', compare=(n_ == len(gone) - 1))
             elif k < .9:
                 if c.abstract:
                     continue
@@ -171,7 +213,7 @@ def run_case(ctx, h, nedits, lines=None, reals=None):
             problem = ('edit-raised', f'`{log[-1] if log else "?"}` then the next edit raised {type(e).__name__}: {str(e)[:100]}')
             break
         ctx.evaluations += 1
-        ctx.count('edit/' + log[-1].split()[0].split('.')[-1])
+        ctx.count('edit/' + log[-1].split()[0].split('.')[-1].split('(')[0] + ('/' + log[-1].split('(')[1].split(')')[0] if '(' in log[-1].split()[0] else ''))
         try:
             problem = observe(classes, instances, removed, E, EcoreUtils)
         except Exception as e:
@@ -204,7 +246,7 @@ def run(ctx):
     bad = set()
     for (h, real, line), out in zip(reals, outs):
         ctx.evaluations += 1
-        if real != out and h not in bad:
+        if real is not None and real != out and h not in bad:
             bad.add(h)
             ctx.diverge(f'case {h} after `{line}`: implementation {real!r}, model {out!r}', {'case': h, 'line': line})
     ctx.extra['correspondence_records'] = len(lines)
